@@ -41,6 +41,11 @@ package protocol
 //@   ensures [atomic] (err != nil ==> op == nil) && (err == nil ==> op != nil)
 //@ func (p OperationParser) ParseDID(namespace, shortOrLongFormDID) (did, req, err)
 //@   pure
+// C17 (implied by [short-form] + [long-form] + [split] of the implementation, operationparser.(Parser).ParseDID):
+// a create request comes back only for a DID whose last segment is an acceptable initial state, and
+// the DID in front of that segment is returned with it
+//@   ensures [initial-state] err == nil && req != nil ==> initialStateOK(initialStateOf(shortOrLongFormDID))
+//@   ensures [split] err == nil && req != nil ==> did == shortOrLongFormDID[0:strings.LastIndex(shortOrLongFormDID, ":")]
 //@ func (p OperationParser) GetRevealValue(operation) (rv, err)
 //@   pure
 //@ func (p OperationParser) GetCommitment(operation) (cm, err)
